@@ -36,6 +36,21 @@ def large_cases(which):
         out.append({'A': A, 'B': None, 'a_names': None, 'b_names': None, 'q': q})
         q = {'type': 'select', 'items': [{'k': 'expr', 'e': _f('a', 1)}], 'join': None, 'distinct': 'distinct', 'top': {'n': 90, 'form': 'TOP'}}
         out.append({'A': A, 'B': None, 'a_names': None, 'b_names': None, 'q': q})
+        # a small bound over thousands of records with large tie groups, both directions, without DISTINCT
+        for desc in (False, True):
+            for n_top in (3, 7):
+                q = {'type': 'select', 'items': [{'k': 'expr', 'e': NR}, {'k': 'expr', 'e': _f('a', 0)}], 'join': None,
+                     'order': {'keys': [qgen.mk('int(a2) % 5', 'parseInt(a2) % 5', 'int')], 'desc': desc, 'asc_kw': False}, 'top': {'n': n_top, 'form': 'TOP' if desc else 'LIMIT'}}
+                out.append({'A': A, 'B': None, 'a_names': None, 'b_names': None, 'q': q})
+        # one huge tie group that ends long before the input does (its members are all early arrivals)
+        for desc in (False, True):
+            for n_top in (3, 40):
+                q = {'type': 'select', 'items': [{'k': 'expr', 'e': NR}], 'join': None,
+                     'order': {'keys': [qgen.mk('int(NR <= 1200)', '(NR <= 1200 ? 1 : 0)', 'int')], 'desc': desc, 'asc_kw': False}, 'top': {'n': n_top, 'form': 'LIMIT'}}
+                out.append({'A': A, 'B': None, 'a_names': None, 'b_names': None, 'q': q})
+                q = {'type': 'select', 'items': [{'k': 'expr', 'e': NR}], 'join': None,
+                     'order': {'keys': [qgen.mk('int(NR > 1400)', '(NR > 1400 ? 1 : 0)', 'int')], 'desc': desc, 'asc_kw': False}, 'top': {'n': n_top, 'form': 'TOP'}}
+                out.append({'A': A, 'B': None, 'a_names': None, 'b_names': None, 'q': q})
         # sort, then dedup, then truncate - with thousands of duplicates in front of the bound (all three features together)
         for desc in (False, True):
             for distinct in ('distinct', 'count'):
@@ -113,6 +128,11 @@ def large_cases(which):
         q = {'type': 'select', 'items': [{'k': 'expr', 'e': NR}, {'k': 'expr', 'e': _f('b', 1)}],
              'join': {'kind': 'STRICT LEFT JOIN', 'pairs': [{'l': {'nr': 'NR'}, 'r': {'nr': 'bNR'}, 'eq': '==', 'swap': False}], 'table': 'b', 'and': 'and'}}
         out.append({'A': table(900), 'B': B, 'a_names': None, 'b_names': None, 'q': q})
+    elif which == 'join-huge':
+        Bh = [['v%d' % (i % 9), 'b%d' % i] for i in range(130001)]
+        q = {'type': 'select', 'items': [{'k': 'expr', 'e': NR}, {'k': 'agg', 'fn': 'COUNT', 'sp': 'COUNT', 'star': True, 'startext': '*'}], 'group': [NR],
+             'join': {'kind': 'JOIN', 'pairs': [{'l': {'f': {'py': 'a1', 'js': 'a1', 'idx': 0}}, 'r': {'f': {'py': 'b1', 'js': 'b1', 'idx': 0}}, 'eq': '==', 'swap': False}], 'table': 'b', 'and': 'and'}}
+        out.append({'A': table(3), 'B': Bh, 'a_names': None, 'b_names': None, 'q': q})
     elif which == 'update':
         q = {'type': 'update', 'assign': [{'target': _f('a', 1), 'idx': 1, 'e': {'py': 'NU', 'js': 'NU', 'name': None, 'ty': 'int'}, 'eq': '='},
                                           {'target': _f('a', 0), 'idx': 0, 'e': qgen.mk("(a3 or '') + str(NR)", "(a3 || '') + String(NR)", 'str'), 'eq': '='}],
